@@ -181,4 +181,47 @@ end seq
 example : stepsMax (2 : ℚ) 2 4 0 = [2, 1, 1/2, 1/4] := by decide +kernel
 example : stepsMin (1/4 : ℚ) 2 4 0 = [2, 1, 1/2, 1/4] := by decide +kernel
 
+
+theorem ratPow_nonneg (x : Rat) (hx : 0 ≤ x) (k : ℕ) : 0 ≤ ratPow x k := by
+  induction k with
+  | zero => simp [ratPow]
+  | succ k ih => simp only [ratPow]; positivity
+
+/-- **the default scale is at least 1.06**, so the default base step `EPS ** (1 / scale)` is a well-defined number in (0, 1) for
+every method, derivative order and approximation order -/
+theorem default_scale_pos (m : Method) (n order : ℕ) : (1.06 : Rat) ≤ default_scale m n order := by
+  unfold default_scale
+  have hc : ∀ k : ℕ, (0 : Rat) ≤ ratPow (1.5 : Rat) k ∧ (0 : Rat) ≤ ratPow (1.7 : Rat) k ∧ (0 : Rat) ≤ ratPow (2.1 : Rat) k :=
+    fun k => ⟨ratPow_nonneg _ (by norm_num) k, ratPow_nonneg _ (by norm_num) k, ratPow_nonneg _ (by norm_num) k⟩
+  obtain ⟨h15, h17, h21⟩ := hc (n / 4)
+  have hn4 : (0 : Rat) ≤ ((n / 4 : ℕ) : Rat) := Nat.cast_nonneg _
+  have hn1 : (0 : Rat) ≤ ((n - 1 : ℕ) : Rat) := Nat.cast_nonneg _
+  have hlt : n % 4 < 4 := Nat.mod_lt _ (by norm_num)
+  simp only []
+  have hord : (0 : Rat) ≤ ((max (order / 2 - 1) 0 * 3 : ℕ) : Rat) ∧ (0 : Rat) ≤ ((max (order / 2 - 1) 0 * 2 : ℕ) : Rat)
+      ∧ (0 : Rat) ≤ ((max (order / 2 - 1) 0 * 0 : ℕ) : Rat) := ⟨Nat.cast_nonneg _, Nat.cast_nonneg _, Nat.cast_nonneg _⟩
+  obtain ⟨ho3, ho2, ho0⟩ := hord
+  cases m
+  case complex =>
+    simp only []
+    set L : List Rat := [((n / 4 : ℕ) : Rat) * (((10 : ℕ) : Rat) + (1.5 : Rat) * (((if decide (n > 10) = true then 1 else 0 : ℕ)) : Rat)),
+          (3.65 : Rat) + ((n / 4 : ℕ) : Rat) * (((5 : ℕ) : Rat) + ratPow (1.5 : Rat) (n / 4)),
+          (3.65 : Rat) + ((n / 4 : ℕ) : Rat) * (((5 : ℕ) : Rat) + ratPow (1.7 : Rat) (n / 4)),
+          (7.3 : Rat) + ((n / 4 : ℕ) : Rat) * (((5 : ℕ) : Rat) + ratPow (2.1 : Rat) (n / 4))] with hL
+    have hLnn : ∀ x ∈ L, (0 : Rat) ≤ x := by
+      intro x hx
+      simp only [hL, List.mem_cons, List.mem_nil_iff, or_false] at hx
+      rcases hx with rfl | rfl | rfl | rfl <;> positivity
+    have hget : (0 : Rat) ≤ L.getD (n % 4) 0 := by
+      rw [List.getD_eq_getElem?_getD]
+      cases hq : L[n % 4]? with
+      | none => simp
+      | some v => simpa using hLnn v (List.mem_of_getElem? hq)
+    have hcnn : (0 : Rat) ≤ (if decide ((if (decide (n > 1) || decide (order ≥ 4)) = true then 1 else 0) ≠ 0) = true then
+        L.getD (n % 4) 0 else ((0 : ℕ) : Rat)) := by
+      split_ifs <;> first | exact hget | simp
+    norm_num at hcnn ⊢
+    try linarith
+  all_goals (simp only []; norm_num; try nlinarith [hn1, ho3, ho2, ho0])
+
 end Ndt
